@@ -26,6 +26,13 @@ struct OptedOut {
   int v;
   bool operator<(const OptedOut &o) const { return v < o.v; }
 };
+struct Small2NTR {  // several of them fit in the bytes of a pointer
+  unsigned char a, b;
+  Small2NTR() : a(0), b(0) {}
+  Small2NTR(const Small2NTR &o) : a(o.a), b(o.b) {}
+  Small2NTR &operator=(const Small2NTR &o) { a = o.a; b = o.b; return *this; }
+  bool operator<(const Small2NTR &o) const { return a < o.a; }
+};
 template <class T>
 struct CmpState {  // trivially copyable comparator with state: relocatable
   int dir;
@@ -49,6 +56,19 @@ struct CmpDeclared {  // non trivial but declares itself relocatable
   bool operator()(const T &a, const T &b) const { return dir ? b < a : a < b; }
 };
 
+template <class T>
+struct CmpEmptyNonTR {  // no state at all, but user-provided copy operations and no declaration: not relocatable
+  CmpEmptyNonTR() {}
+  CmpEmptyNonTR(const CmpEmptyNonTR &) {}
+  CmpEmptyNonTR &operator=(const CmpEmptyNonTR &) { return *this; }
+  bool operator()(const T &a, const T &b) const { return a < b; }
+};
+template <class T>
+struct CmpEmptyOptedOut {  // empty and trivially copyable, but declares false
+  typedef std::false_type trivially_relocatable;
+  bool operator()(const T &a, const T &b) const { return a < b; }
+};
+
 static void expect(const char *what, bool got, bool want) {
   if (got != want) violation(P14 | P17, "%s: trivially_relocatable is %d, its parts imply %d", what, int(got), int(want));
 }
@@ -59,6 +79,10 @@ static void row(const char *tn, bool trT, const char *cn, bool trC) {
   typedef amc::vector<T> V;
   typedef amc::SmallVector<T, 3> SV;
   typedef amc::FixedCapacityVector<T, 3> F;
+  typedef amc::SmallVector<T, 1> SV1;  // shares its bytes with the heap pointer whatever T is
+  typedef amc::FixedCapacityVector<T, 1> F1;
+  typedef amc::FlatSet<T, C, A, SV1> FS3;
+  typedef amc::SmallSet<T, 1, C, A, FS3> SSF1;
   typedef amc::FlatSet<T, C, A, V> FS;
   typedef amc::FlatSet<T, C, A, SV> FS2;
   typedef amc::SmallSet<T, 3, C, A, FS> SSF;
@@ -74,6 +98,11 @@ static void row(const char *tn, bool trT, const char *cn, bool trC) {
   expect("amc::vector<T>", amc::is_trivially_relocatable<V>::value, true);
   expect("SmallVector<T,3>", amc::is_trivially_relocatable<SV>::value, trT);
   expect("FixedCapacityVector<T,3>", amc::is_trivially_relocatable<F>::value, trT);
+  expect("SmallVector<T,4>", amc::is_trivially_relocatable<amc::SmallVector<T, 4> >::value, trT);
+  expect("SmallVector<T,1>", amc::is_trivially_relocatable<SV1>::value, trT);
+  expect("FixedCapacityVector<T,1>", amc::is_trivially_relocatable<F1>::value, trT);
+  expect("FlatSet<T,Compare,SmallVector<T,1>>", amc::is_trivially_relocatable<FS3>::value, trC && trT);
+  expect("SmallSet<T,1,Compare,FlatSet<SmallVector<T,1>>>", amc::is_trivially_relocatable<SSF1>::value, trC && trT);
   expect("FlatSet<T,Compare,amc::vector>", amc::is_trivially_relocatable<FS>::value, trC);
   expect("FlatSet<T,Compare,SmallVector>", amc::is_trivially_relocatable<FS2>::value, trC && trT);
   expect("SmallSet<T,3,Compare,FlatSet>", amc::is_trivially_relocatable<SSF>::value, trC && trT);
@@ -88,12 +117,16 @@ static void rows_for(const char *tn, bool trT) {
   row<T, CmpDeclared<T> >(tn, trT, "CmpDeclared(declares true)", true);
   row<T, CmpNonTR<T> >(tn, trT, "CmpNonTR(self pointer)", false);
   row<T, std::function<bool(const T &, const T &)> >(tn, trT, "std::function", false);
+  row<T, CmpEmptyNonTR<T> >(tn, trT, "CmpEmptyNonTR(empty, user copy)", false);
+  row<T, CmpEmptyOptedOut<T> >(tn, trT, "CmpEmptyOptedOut(empty, declares false)", false);
 }
 
 int main(int argc, char **argv) {
   enum_init(argc, argv, "static_c14");
   rows_for<int>("int", true);
   rows_for<TC<7, 1> >("TC7", true);
+  rows_for<char>("char", true);
+  rows_for<Small2NTR>("Small2NTR(2 bytes, user copy)", false);
   rows_for<TR>("TR(declares true)", true);
   rows_for<NTR>("NTR", false);
   rows_for<std::string>("std::string", false);
